@@ -375,8 +375,9 @@ def decide(chk, tier, seed):
 
     with Lock():
         tr_ok, markers = run_translator()
-        for m in markers:
-            broken.append(("translator", m))
+        if chk.gen_rels:            # only properties built on the regenerated tables depend on the translator
+            for m in markers:
+                broken.append(("translator", m))
         rc, mk_out = coq_make(["theories/%s.vo" % r for r in [chk.props_rel, chk.corr_rel] + list(chk.gen_rels) + list(chk.extra_rels)])
         hrc, hout, exe = build_harness(prop)
     if hrc != 0:
